@@ -793,3 +793,62 @@ func writeECDSAKeys(repoRoot, srcRoot, verifRoot string, check bool) int {
 	}
 	return stale
 }
+
+// ---------------- batch inversion of the extension types (C06) ----------------
+
+var reBatchInvExt = regexp.MustCompile(`(?m)^func BatchInvert(E[0-9]+)\(a \[\]E[0-9]+\) \[\]E[0-9]+ \{`)
+
+// batchInvTypes lists, per extension package, the types with a BatchInvert<T> of the usual shape (bool flags).
+func batchInvTypes(srcRoot string) map[string][]string {
+	out := map[string][]string{}
+	for _, pk := range globPkgs(srcRoot, "ecc/*/internal/fptower", "field/*/extensions") {
+		dir := filepath.Join(srcRoot, strings.TrimPrefix(pk, "./"))
+		files, _ := filepath.Glob(filepath.Join(dir, "e*.go"))
+		sort.Strings(files)
+		for _, f := range files {
+			if strings.HasSuffix(f, "_test.go") {
+				continue
+			}
+			b, err := os.ReadFile(f)
+			if err != nil {
+				continue
+			}
+			src := string(b)
+			for _, m := range reBatchInvExt.FindAllStringSubmatchIndex(src, -1) {
+				t := src[m[2]:m[3]]
+				body := src[m[0]:]
+				if j := strings.Index(body, "\n}\n"); j >= 0 {
+					body = body[:j]
+				}
+				if strings.Contains(body, "zeroes := make([]bool, len(a))") && strings.Contains(body, "if zeroes[i] {") {
+					out[pk] = append(out[pk], t)
+				}
+			}
+		}
+	}
+	return out
+}
+
+func writeBatchInvExt(repoRoot, srcRoot, verifRoot string, check bool) int {
+	b, err := os.ReadFile(filepath.Join(verifRoot, "contracts", "tower", "batchinv.go.tmpl"))
+	if err != nil {
+		return 0
+	}
+	tmpl := string(b)
+	i := strings.Index(tmpl, "//@ func BatchInvertTYPE")
+	if i < 0 {
+		return 0
+	}
+	head, block := tmpl[:i], tmpl[i:]
+	stale := 0
+	types := batchInvTypes(srcRoot)
+	for _, pk := range sortedKeysSS(types) {
+		rel := strings.TrimPrefix(pk, "./")
+		s := strings.ReplaceAll(head, "PKG", filepath.Base(rel))
+		for _, t := range types[pk] {
+			s += "\n" + strings.ReplaceAll(block, "TYPE", t)
+		}
+		stale += installText(filepath.Join(repoRoot, rel, "zz_verif_contracts_batchinv.go"), s, check)
+	}
+	return stale
+}
